@@ -110,7 +110,40 @@ fn real_fields(o: &ObjectData<'static>) -> Vec<(u8, bool)> {
     o.get_fields_order().iter().map(|(n, v)| (n.0, *v != V::Hidden)).collect()
 }
 
-struct Tally { cases: u64, failures: u64, first: Option<String> }
+/// the Jsonnet expression that builds exactly this layer list, when one exists: std.objectRemoveKey only leaves a
+/// marker when the operand HAS the field, so a marker over an object without the field has no program (None)
+fn to_jsonnet(ls: &[L]) -> Option<String> {
+    fn lit(l: &L) -> String {
+        fn f(n: &str, e: E) -> Option<String> { match e { E::N(V::Default) => Some(format!("{}: 1", n)), E::N(V::Hidden) => Some(format!("{}:: 1", n)), E::N(V::ForceVisible) => Some(format!("{}::: 1", n)), _ => None } }
+        let v: Vec<String> = [f("a", l.a), f("b", l.b)].into_iter().flatten().collect();
+        format!("{{ {} }}", v.join(", "))
+    }
+    let mut blocks: Vec<String> = Vec::new();
+    let mut i = 0;
+    while i < ls.len() {
+        let (name, ent) = if let E::R(_) = ls[i].a { ("a", ls[i].a) } else { ("b", ls[i].b) };
+        if let E::R(d) = ent {
+            if i + d >= ls.len() { return None; }
+            let inner = &ls[i + 1..=i + d];
+            let es: Vec<E> = inner.iter().map(|l| if name == "a" { l.a } else { l.b }).collect();
+            if spec_lookup(&es, 0).is_none() { return None; }
+            blocks.push(format!("std.objectRemoveKey({}, '{}')", to_jsonnet(inner)?, name));
+            i += d + 1;
+        } else { blocks.push(lit(&ls[i])); i += 1; }
+    }
+    blocks.reverse();
+    Some(if blocks.len() == 1 { blocks.pop().unwrap() } else { format!("({})", blocks.join(" + ")) })
+}
+/// self-checking program for the real binary: the two field lists of the object against the specification
+fn cli_program(ls: &[L]) -> Option<String> {
+    let e = to_jsonnet(ls)?;
+    let want = spec_fields(ls);
+    let nm = |i: u8| if i == 1 { "'a'" } else { "'b'" };
+    let vis: Vec<&str> = want.iter().filter(|(_, v)| *v).map(|(i, _)| nm(*i)).collect();
+    let all: Vec<&str> = want.iter().map(|(i, _)| nm(*i)).collect();
+    Some(format!("local o = {}; std.assertEqual([std.objectFields(o), std.objectFieldsAll(o)], [[{}], [{}]])", e, vis.join(", "), all.join(", ")))
+}
+struct Tally { cases: u64, failures: u64, first: Option<String>, cli: Option<String> }
 impl Tally {
     fn check(&mut self, ok: bool, what: &str, witness: impl FnOnce() -> String) {
         self.cases += 1;
@@ -150,7 +183,7 @@ fn show(ls: &[L]) -> String {
 
 pub fn run() {
     let maxl: usize = std::env::args().nth(1).map(|s| s.parse().unwrap()).unwrap_or(5);
-    let mut t = Tally { cases: 0, failures: 0, first: None };
+    let mut t = Tally { cases: 0, failures: 0, first: None, cli: None };
     let mut prog = Program { _p: PhantomData };
     let retag = |ls: &[L], t0: usize| -> Vec<L> { ls.iter().enumerate().map(|(i, l)| L { tag: t0 + i, ..*l }).collect() };
 
@@ -161,6 +194,7 @@ pub fn run() {
             let want = spec_fields(ls);
             let got = real_fields(o);
             t.check(got == want, "C07:objnative:field-list-is-the-visibility-rule-over-the-effective-definitions", || format!("{} got {:?} want {:?} (name id, visible)", show(ls), got, want));
+            if got != want && t.cli.is_none() { t.cli = cli_program(ls); }
             for (nm, id) in [(NAME, 1u8), (OTHER, 2u8)] {
                 let listed = got.iter().find(|(i, _)| *i == id);
                 t.check(listed.is_some() == o.has_field(0, nm), "C07:objnative:field-list-and-has-field-agree-on-which-fields-exist", || format!("{} name {}", show(ls), id));
@@ -243,6 +277,7 @@ pub fn run() {
 
     println!("OBJNATIVE cases={} failures={} maxl={}", t.cases, t.failures, maxl);
     if let Some(w) = t.first { println!("OBJNATIVE first-failure {}", w); }
+    if let Some(w) = t.cli { println!("OBJNATIVE cli-witness {}", w); }
 }
 } // mod u
 fn main() { u::run(); }
